@@ -26,6 +26,14 @@ def generate(R, tier):
                 yield {"stream": "quirk-sweep", "direct": {"layout": [], "eol": 0, "quirks": (1 << i) | (1 << j)}}
         for _ in range(3000):
             yield {"stream": "quirk-sweep", "direct": {"layout": [R.randrange(256) for _ in range(R.randint(0, 12))], "eol": R.choice([0, 3, 255]), "quirks": R.getrandbits(17)}}
+    # long layouts: 40 option bytes hold up to 40 one-byte options (NOP / EOL); every length 0..40 occurs
+    for n_opts in range(0, 41):
+        for lay in ([1] * n_opts, ([2] + [1] * (n_opts - 1)) if n_opts else [], [1] * max(0, n_opts - 1) + ([0] if n_opts else []),
+                    [R.choice([1, 1, 1, 4, 77, 255]) for _ in range(n_opts)]):
+            yield {"stream": "long-layout", "direct": {"layout": lay, "eol": R.choice([0, 0, 2]) if (lay and lay[-1] == 0) else 0, "quirks": 0}}
+    for nops in (21, 24, 25, 26, 36, 40):
+        for v in (4, 6):
+            yield {"stream": "packet", "spec": {"v": v, "flags": 2, "opts": "01" * nops + "00" * ((-nops) % 4)}}
     for c in c03.generate(R, tier):
         if c["stream"] in ("well-formed", "hostile-options"):
             n -= 1
